@@ -410,11 +410,9 @@ class NameConverter(ast.NodeTransformer):
             return self.generic_visit(node)
 
         if any(isinstance(arg, ast.Starred) for arg in node.args):
+            is_recurse = node.func.id in self.recurse_syms
             new_node = self.generic_visit(node)
-            if (
-                self.analysis.is_method
-                and node.func.id in self.recurse_syms
-            ):
+            if self.analysis.is_method and is_recurse:
                 # The dispatch function is not bound: pass self along
                 new_node.args.insert(0, ast.Name(id="self", ctx=ast.Load()))
             return new_node
